@@ -418,7 +418,10 @@ impl Check {
     }
 
     fn stage_seed(&self, name: &str, shard: u64) -> u64 {
-        let mut h = hash_str(&format!("{}/{}/{}", self.id, name, shard));
+        // VERIF_ROUND: the thorough tier of memory-hungry checks is split over several processes
+        // (bin/check), each exploring a different part of the same seed's space
+        let round = std::env::var("VERIF_ROUND").unwrap_or_default();
+        let mut h = hash_str(&format!("{}/{}/{}/{}", self.id, name, shard, round));
         h ^= self.seed.wrapping_mul(0x9e3779b97f4a7c15);
         h = (h ^ (h >> 31)).wrapping_mul(0xbf58476d1ce4e5b9);
         h ^ (h >> 29)
